@@ -1,6 +1,8 @@
 import WhVerif.Lemmas.C10Swap
 import WhVerif.Lemmas.C10Regions
 import WhVerif.Lemmas.C10RunLoop
+import WhVerif.Lemmas.C10Detect
+import WhVerif.Props.C06
 /-!
 # C10 — haplotag conserves every alignment and tags it with the best-agreeing haplotype
 
@@ -737,5 +739,212 @@ example :
       some [("x", 5, ⟨some 1, some 60, some 101⟩), ("x", 6, ⟨some 1, some 60, some 101⟩),
         ("n", 200, ⟨some 1, none, some 101⟩)] := by
   refine ⟨by decide, by decide⟩
+
+
+/-! ## Round 10: the reads haplotag sees (Model/C10Detect.lean = C06's detection as `run_haplotag` configures it) -/
+
+/-- **mates_agreeing_allele_kept** (`create_read_from_group`, the merge of the two mates of a pair; seed C10-h).
+A variant seen by both mates is kept — as ONE observation, the first mate's `Variant` with ITS quality — exactly when
+the two alleles are equal, WHATEVER the two qualities are; it is dropped iff the alleles differ. -/
+theorem mates_agreeing_allele_kept (thr : Int) (a1 a2 : AlnRead) (h1 : a1.supplementary = false)
+    (h2 : a2.supplementary = false) (hd1 : DistinctPos a1.variants) (hd2 : DistinctPos a2.variants) {v1 v2 : RV}
+    (hv1 : v1 ∈ a1.variants) (hv2 : v2 ∈ a2.variants) (hp : v1.pos = v2.pos) :
+    ∃ start vars, groupRead true thr [a1, a2] = some (start, vars) ∧
+      (v1.allele = v2.allele → v1 ∈ vars ∧ ∀ w ∈ vars, w.pos = v1.pos → w = v1) ∧
+      (v1.allele ≠ v2.allele → ∀ w ∈ vars, w.pos ≠ v1.pos) := by
+  obtain ⟨start, vars, hg, hmem⟩ := groupRead_pair thr a1 a2 h1 h2 hd1 hd2
+  have hf1 : a1.variants.find? (·.pos == v2.pos) = some v1 := by rw [← hp]; exact find_of_distinct hd1 hv1
+  refine ⟨start, vars, hg, ?_, ?_⟩
+  · intro heq
+    constructor
+    · rw [hmem]
+      refine ⟨Or.inl hv1, ?_⟩
+      rintro ⟨v, hv, hvp, u, hu, hne⟩
+      have : v = v2 := eq_of_distinct hd2 hv hv2 (by rw [hvp, hp])
+      subst this
+      rw [hf1] at hu; cases hu
+      exact hne heq
+    · intro w hw hwp
+      rcases ((hmem w).1 hw).1 with h | ⟨_, hn⟩
+      · exact eq_of_distinct hd1 h hv1 hwp
+      · rw [hwp, hp, hf1] at hn; cases hn
+  · intro hne w hw hwp
+    exact ((hmem w).1 hw).2 ⟨v2, hv2, by rw [hwp, hp], v1, hf1, hne⟩
+
+/-- non-vacuity + the seed's input: both mates show allele 1 at 199 with qualities 40 / 35, the second mate allele 1 at
+299 with quality 30: the pair is scored 40 : 30 (HP 1); without the doubly covered variant it would be HP 2 -/
+example : groupRead true 100000 [⟨false, false, 100, 250, [⟨199, 1, 40⟩]⟩, ⟨false, true, 180, 330, [⟨199, 1, 35⟩, ⟨299, 1, 30⟩]⟩]
+      = some (100, [⟨199, 1, 40⟩, ⟨299, 1, 30⟩])
+    ∧ tagDecision 2 [(199, (100, [1, 0])), (299, (100, [0, 1]))] [⟨199, 1, 40⟩, ⟨299, 1, 30⟩] = .tagged 0 10 100
+    ∧ tagDecision 2 [(199, (100, [1, 0])), (299, (100, [0, 1]))] [⟨299, 1, 30⟩] = .tagged 1 30 100
+    ∧ groupRead true 100000 [⟨false, false, 100, 250, [⟨199, 1, 40⟩]⟩, ⟨false, true, 180, 330, [⟨199, 0, 35⟩, ⟨299, 1, 30⟩]⟩]
+      = some (100, [⟨299, 1, 30⟩]) := by decide
+
+/-- **mates_without_conflict_union**: mates that never show different alleles give the union of their observations, a
+doubly covered variant once (the first mate's) -/
+theorem mates_without_conflict_union (thr : Int) (a1 a2 : AlnRead) (h1 : a1.supplementary = false)
+    (h2 : a2.supplementary = false) (hd1 : DistinctPos a1.variants) (hd2 : DistinctPos a2.variants)
+    (hagree : ∀ v1 ∈ a1.variants, ∀ v2 ∈ a2.variants, v1.pos = v2.pos → v1.allele = v2.allele) :
+    ∃ start vars, groupRead true thr [a1, a2] = some (start, vars) ∧
+      ∀ w, w ∈ vars ↔ w ∈ a1.variants ∨ (w ∈ a2.variants ∧ ∀ u ∈ a1.variants, u.pos ≠ w.pos) := by
+  obtain ⟨start, vars, hg, hmem⟩ := groupRead_pair thr a1 a2 h1 h2 hd1 hd2
+  refine ⟨start, vars, hg, fun w => ?_⟩
+  rw [hmem]
+  have hnone : ∀ x : RV, a1.variants.find? (·.pos == x.pos) = none ↔ ∀ u ∈ a1.variants, u.pos ≠ x.pos := by
+    intro x; simp [List.find?_eq_none]
+  constructor
+  · rintro ⟨h | ⟨h, hn⟩, _⟩
+    · exact Or.inl h
+    · exact Or.inr ⟨h, (hnone w).1 hn⟩
+  · intro h
+    refine ⟨h.imp id (fun ⟨a, b⟩ => ⟨a, (hnone w).2 b⟩), ?_⟩
+    rintro ⟨v, hv, _, u, hu, hne⟩
+    have hum := List.mem_of_find?_eq_some hu
+    have hup : u.pos = v.pos := by simpa using List.find?_some hu
+    exact hne (hagree u hum v hv hup)
+
+example : ∀ v1 ∈ [(⟨199, 1, 40⟩ : RV)], ∀ v2 ∈ [(⟨199, 1, 35⟩ : RV), ⟨299, 1, 30⟩], v1.pos = v2.pos → v1.allele = v2.allele := by decide
+
+/-- **supplementary_alleles_unused**: `run_haplotag` builds its reader without `use_supplementary`, so a supplementary
+record never contributes an allele to its read — with or without `--tag-supplementary` (the option acts in the write loop only) -/
+theorem supplementary_alleles_unused (fx : C06.Fixes) (variants : List C06.Variant) (reference : Option C06.Seq) (a : C06.Aln)
+    (h : a.supplementary = true) : alnAlleles fx variants reference a = .ok [] := by
+  simp [alnAlleles, C06.usable, haplotagCfg, h]
+
+/-- … and likewise low mapping quality, secondary, unmapped; a duplicate IS read (`duplicates=True`) -/
+theorem filtered_alleles_unused (fx : C06.Fixes) (variants : List C06.Variant) (reference : Option C06.Seq) (a : C06.Aln)
+    (h : a.mapq < 20 ∨ a.secondary = true ∨ a.unmapped = true) : alnAlleles fx variants reference a = .ok [] := by
+  rcases h with h | h | h <;> simp [alnAlleles, C06.usable, haplotagCfg, h]
+
+example : (⟨"s", 2048, 60, none, 0, none, none, none, "", -1, some 0, 0⟩ : C06.Aln).supplementary = true := by decide
+
+/-- **supplementary_inherits_primary_tag** (`--tag-supplementary`): a supplementary record on the contig is written with
+exactly the HP / PC / PS of the read of its name — the tag its primary alignment gets — whenever that read was tagged from
+its own alleles (PC present); without the option it is written untagged.  (No distance threshold exists in the code.) -/
+theorem supplementary_inherits_primary_tag {α} (c : ChromCtx) (p s : Aln α)
+    (hp : p.unmapped = false ∧ p.secondary = false ∧ p.supplementary = false)
+    (hs : s.unmapped = false ∧ s.secondary = false ∧ s.supplementary = true) (hn : s.name = p.name)
+    (hpc : (tagAln c p).tags.pc.isSome = true) :
+    (tagAln c s).tags = if c.tagSupplementary then (tagAln c p).tags else {} := by
+  obtain ⟨hp1, hp2, hp3⟩ := hp
+  obtain ⟨hs1, hs2, hs3⟩ := hs
+  have hP : (tagAln c p).tags = newTags c p.name p.refStart p.bx := by
+    simp [tagAln, ignoreRead, hp1, hp2, hp3]
+  rw [hP] at hpc ⊢
+  cases hts : c.tagSupplementary
+  · simp [tagAln, ignoreRead, hs1, hs2, hs3, hts]
+  · have hS : (tagAln c s).tags = newTags c s.name s.refStart s.bx := by
+      simp [tagAln, ignoreRead, hs1, hs2, hs3, hts]
+    rw [hS, hn]
+    simp only [if_true]
+    unfold newTags at hpc ⊢
+    cases hl : lookupLast p.name c.readToHap with
+    | some e => rfl
+    | none =>
+      rw [hl] at hpc
+      simp only at hpc
+      split at hpc
+      · cases hpc
+      · split at hpc
+        · cases hpc
+        · split at hpc <;> cases hpc
+
+example : (tagAln (α := Unit) ⟨[("r", (0, 40, 7))], [], 50000, false, true⟩ ⟨(), "r", false, false, true, 500, 600, none, {}⟩).tags
+    = { hp := some 1, pc := some 40, ps := some 7 } := by decide
+
+/-- **boundary_variant_typed** (`--no-reference`, the walker `_detect_alleles`; any CIGAR over the operators 0–8, all
+variants SNVs).  An SNV the variant pointer has not passed is typed exactly when its position is aligned in an M/=/X
+block (`mIdx`): then the base aligned to it decides — REF base ⇒ allele 0, ALT base ⇒ allele 1, with that base's
+quality —, so an error-free read carries its haplotype's allele; and an SNV that is not aligned (in particular one base
+past the last aligned base, `mIdx_span`) is not carried at all. -/
+theorem boundary_variant_typed (fx : C06.Fixes) (variants : List C06.Variant) (first start : Nat) (cigar : C06.Cigar)
+    (query : C06.Seq) (quals : Option (List Nat)) (hsnv : ∀ v ∈ variants, C06.SnvV v)
+    (hsorted : variants.Pairwise (fun a b => a.pos < b.pos)) (hops : ∀ p ∈ cigar, p.1 ≤ 8)
+    (hlen : C06.qLen cigar ≤ query.length) (hquals : ∀ l, quals = some l → l.length = query.length)
+    (id : Nat) (v : C06.Variant) (hv : (id, v) ∈ (C06.enumFrom 0 variants).drop first) (r a : Char)
+    (hr : v.ref = [r]) (ha : v.alts = [[a]]) (hne : r ≠ a) :
+    (∀ q, mIdx v.pos start 0 cigar = some q →
+      (query[q]? = some r → (id, 0, C06.qualAt quals q) ∈ (C06.detectNoRef fx variants first start cigar query quals).1) ∧
+      (query[q]? = some a → (id, 1, C06.qualAt quals q) ∈ (C06.detectNoRef fx variants first start cigar query quals).1)) ∧
+    (∀ t ∈ (C06.detectNoRef fx variants first start cigar query quals).1, t.1 = id →
+      ∃ q, mIdx v.pos start 0 cigar = some q ∧ start ≤ v.pos ∧ v.pos < start + C06.refLen cigar ∧
+        ((t.2.1 = 0 ∧ query[q]? = some r) ∨ (t.2.1 = 1 ∧ query[q]? = some a))) := by
+  rw [WhVerif.Props.C06.noref_snv_correct fx variants first start cigar query quals hsnv hsorted hops hlen hquals]
+  have hsub : ((C06.enumFrom 0 variants).drop first).Sublist (C06.enumFrom 0 variants) := List.drop_sublist _ _
+  have hsp : C06.SortedP ((C06.enumFrom 0 variants).drop first) :=
+    List.Pairwise.sublist hsub (C06.enumFrom_sortedP variants 0 hsorted)
+  constructor
+  · intro q hq
+    have hc := C06.snvCall_complete query quals id v q r a hr ha hne
+    exact ⟨fun h => snvExpected_complete query quals cigar start 0 _ hsp (id, v) hv q _ hq (hc.1 h),
+           fun h => snvExpected_complete query quals cigar start 0 _ hsp (id, v) hv q _ hq (hc.2 h)⟩
+  · intro t ht hid
+    obtain ⟨x, hx, q, hq, hcall⟩ := snvExpected_sound query quals cigar start 0 _ hsp t ht
+    obtain ⟨k, w⟩ := x
+    obtain ⟨tk, th, tq⟩ := t
+    obtain ⟨r', a', hr', ha', _⟩ := hsnv w (C06.mem_enumFrom_snd variants 0 k w (hsub.subset hx))
+    obtain ⟨hk, _, hcase⟩ := C06.snvCall_sound query quals k w q r' a' hr' ha' tk th tq hcall
+    simp only at hid hk
+    have hkid : k = id := by omega
+    subst hkid
+    have hw : w = v := enumFrom_fun variants 0 k w v (hsub.subset hx) (hsub.subset hv)
+    subst hw
+    rw [hr] at hr'; rw [ha] at ha'
+    simp only [List.cons.injEq, and_true] at hr' ha'
+    subst hr' ha'
+    obtain ⟨h1, h2⟩ := mIdx_span _ _ _ _ _ hq
+    exact ⟨q, hq, h1, h2, hcase⟩
+
+
+/-- non-vacuity: `2S 5M 1H` at 3, SNVs on the first (3) and on the last (7) aligned base and one base past the end (8) -/
+example :
+    let vars : List C06.Variant := [⟨3, ['A'], [['C']]⟩, ⟨7, ['G'], [['T']]⟩, ⟨8, ['A'], [['G']]⟩]
+    let cig : C06.Cigar := [(4, 2), (0, 5), (5, 1)]
+    let query : C06.Seq := ['T', 'T', 'C', 'G', 'G', 'G', 'T']
+    mIdx 3 3 0 cig = some 2 ∧ mIdx 7 3 0 cig = some 6 ∧ mIdx 8 3 0 cig = none ∧
+    (0, 1, 30) ∈ (C06.detectNoRef C06.Fixes.all vars 0 3 cig query none).1 ∧
+    (1, 1, 30) ∈ (C06.detectNoRef C06.Fixes.all vars 0 3 cig query none).1 ∧
+    ∀ t ∈ (C06.detectNoRef C06.Fixes.all vars 0 3 cig query none).1, t.1 ≠ 2 := by
+  intro vars cig query
+  have hsnv : ∀ v ∈ vars, C06.SnvV v := by
+    intro v hv
+    simp only [vars, List.mem_cons, List.not_mem_nil, or_false] at hv
+    rcases hv with rfl | rfl | rfl <;> exact ⟨_, _, rfl, rfl, by decide⟩
+  have hs : vars.Pairwise (fun a b => a.pos < b.pos) := by decide
+  have hops : ∀ p ∈ cig, p.1 ≤ 8 := by decide
+  have hlen : C06.qLen cig ≤ query.length := by decide
+  have B := fun id v hv r a hr ha hne => boundary_variant_typed C06.Fixes.all vars 0 3 cig query none hsnv hs hops hlen
+    (by intro l h; cases h) id v hv r a hr ha hne
+  refine ⟨by decide, by decide, by decide, ?_, ?_, ?_⟩
+  · exact ((B 0 ⟨3, ['A'], [['C']]⟩ (by decide) 'A' 'C' rfl rfl (by decide)).1 2 (by decide)).2 (by decide)
+  · exact ((B 1 ⟨7, ['G'], [['T']]⟩ (by decide) 'G' 'T' rfl rfl (by decide)).1 6 (by decide)).2 (by decide)
+  · intro t ht h2
+    obtain ⟨q, hq, _⟩ := (B 2 ⟨8, ['A'], [['G']]⟩ (by decide) 'A' 'G' rfl rfl (by decide)).2 t ht h2
+    have : mIdx 8 3 0 cig = none := by decide
+    rw [this] at hq; cases hq
+
+/-- **clips_do_not_shift**: soft and hard clips, leading or trailing, do not move the typed positions: the same reference
+positions are aligned (hence typed, `boundary_variant_typed`), a leading soft clip of `n` bases only shifts the query index
+of every aligned base by `n`, a hard clip and any trailing clip change nothing. -/
+theorem clips_do_not_shift (p start n : Nat) (c : C06.Cigar) :
+    mIdx p start 0 ((4, n) :: c) = (mIdx p start 0 c).map (· + n) ∧ mIdx p start 0 ((5, n) :: c) = mIdx p start 0 c ∧
+    mIdx p start 0 (c ++ [(4, n)]) = mIdx p start 0 c ∧ mIdx p start 0 (c ++ [(5, n)]) = mIdx p start 0 c := by
+  refine ⟨?_, mIdx_hardclip p n start 0 c, mIdx_append_clip p c 4 n (Or.inl rfl) start 0, mIdx_append_clip p c 5 n (Or.inr rfl) start 0⟩
+  rw [mIdx_softclip, ← mIdx_shift]
+
+/-- the position one past the last aligned base is never typed; the last aligned base of a final M/=/X block is -/
+theorem last_base_typed_next_not (start qp m : Nat) (mop : Nat) (hm : C06.isMatch mop = true) (hpos : 0 < m) (c : C06.Cigar) :
+    mIdx (start + C06.refLen c) start qp c = none ∧
+    mIdx (start + (m - 1)) start qp [(mop, m)] = some (qp + (m - 1)) ∧ mIdx start start qp [(mop, m)] = some qp := by
+  refine ⟨?_, ?_, ?_⟩
+  · cases h : mIdx (start + C06.refLen c) start qp c with
+    | none => rfl
+    | some q => have := (mIdx_span _ _ _ _ _ h).2; omega
+  · simp only [mIdx, hm, if_true]
+    have : start ≤ start + (m - 1) ∧ start + (m - 1) < start + m := by omega
+    simp [this]
+  · simp only [mIdx, hm, if_true]
+    have : start ≤ start ∧ start < start + m := by omega
+    simp [this]
 
 end WhVerif.Props.C10
